@@ -88,7 +88,7 @@ var Projections = map[string]*Projection{
 		Cb: map[string]fieldSet{"*": fs("q", "def", "si", "params")}},
 	"C01": {Recv: map[string]fieldSet{"*": kinds, "R": fs("code"), "E": fs("cls")},
 		Cb: map[string]fieldSet{"*": fs("q", "def", "ret", "db", "user", "pw", "i")}},
-	"C12": {Global: true, Recv: map[string]fieldSet{"*": kinds, "R": fs("code"), "S": fs("key", "val"), "Z": fs("st")},
+	"C12": {Global: true, Recv: map[string]fieldSet{"*": kinds, "R": fs("code"), "S": fs("key", "val"), "Z": fs("st"), "ssl": fs("b")},
 		Cb: map[string]fieldSet{"*": fs("q", "def", "ret", "cp", "sp", "i", "db", "user")}},
 	"C13": {SkipPreamble: true, Recv: map[string]fieldSet{"*": kinds, "G": fs("fmt", "n", "fmts")},
 		Cb: map[string]fieldSet{"*": fs("q", "def", "si", "ret", "dig")}},
